@@ -79,7 +79,7 @@ func checkEnc(c encCase) *mc.Viol {
 	for i := 0; i < c.Prefix; i++ {
 		buf[i] = byte(0x11 * (i + 1))
 	}
-	dst := buf[:c.Prefix:c.Prefix+c.Spare]
+	dst := buf[: c.Prefix : c.Prefix+c.Spare]
 	want := refEnc(c.V)
 	var got []byte
 	if p := mc.Catch(func() { got = quicwire.AppendVarint(dst, c.V) }); p != "" {
